@@ -211,6 +211,10 @@ func registerIntrinsics(p *Program) {
 		}
 		return Bool(ex.crashed != nil)
 	})
+	reg("verifOutcome", func(ex *Exec, a []Value) Value {
+		ex.outcome = concStr(ex, a[0])
+		return nil
+	})
 	reg("verifSymbolic", func(ex *Exec, a []Value) Value { return True })
 	reg("verifNondetTime", func(ex *Exec, a []Value) Value {
 		tag := concStr(ex, a[0])
